@@ -75,6 +75,9 @@ func typeKey(t types.Type) string {
 	return types.TypeString(types.Unalias(t), nil)
 }
 
+// maxUnrolledArray: arrays of composite elements up to this length are modelled element by element.
+const maxUnrolledArray = 8
+
 // Slot is one scalar leaf of a flattened type.
 type Slot struct {
 	Path string // e.g. "Glyphs.len", "Bounds.Ascent", "" for a scalar root
@@ -118,7 +121,14 @@ func (e *Engine) slots(t types.Type) []Slot {
 		case *types.Array:
 			es := e.ar.scalarSortOrEmpty(u.Elem())
 			if es == "" {
-				unsupp("array of composite elements %s", t)
+				// small arrays of composite elements are unrolled like struct fields "[k]"
+				if u.Len() > maxUnrolledArray {
+					unsupp("array of composite elements %s", t)
+				}
+				for k := int64(0); k < u.Len(); k++ {
+					rec(u.Elem(), join(fmt.Sprintf("[%d]", k)))
+				}
+				return
 			}
 			out = append(out, Slot{join("[]"), SArr(e.ar.idxSort(), es), u.Elem()})
 		default:
@@ -164,7 +174,14 @@ func (e *Engine) build(t types.Type, next func(s Slot) Term) Val {
 		case *types.Array:
 			es := e.ar.scalarSortOrEmpty(u.Elem())
 			if es == "" {
-				unsupp("array of composite elements %s", t)
+				if u.Len() > maxUnrolledArray {
+					unsupp("array of composite elements %s", t)
+				}
+				av := ArrayV{Ty: t, E: []Val{}}
+				for k := int64(0); k < u.Len(); k++ {
+					av.E = append(av.E, rec(u.Elem(), join(fmt.Sprintf("[%d]", k))))
+				}
+				return av
 			}
 			return ArrayV{Ty: t, A: next(Slot{join("[]"), SArr(e.ar.idxSort(), es), u.Elem()})}
 		default:
@@ -202,7 +219,10 @@ func (e *Engine) flatten(v Val) []Term {
 			out = append(out, x.Rid, x.Idx)
 		case ArrayV:
 			if x.E != nil {
-				unsupp("flatten of explicit array")
+				for _, f := range x.E {
+					rec(f)
+				}
+				return
 			}
 			out = append(out, x.A)
 		default:
@@ -245,6 +265,12 @@ func pathPrefix(root types.Type, path []int) (string, types.Type) {
 	t := root
 	var parts []string
 	for _, f := range path {
+		if at, ok := t.Underlying().(*types.Array); ok {
+			// unrolled array of composite elements: step = element index
+			parts = append(parts, fmt.Sprintf("[%d]", f))
+			t = at.Elem()
+			continue
+		}
 		st, ok := t.Underlying().(*types.Struct)
 		if !ok {
 			unsupp("field path through non-struct %s", t)
